@@ -222,7 +222,7 @@ def run_function(task):
         repo = Repo(repo_root)
         if use_cache:
             ck = hashlib.sha256(json.dumps([repo.file_hashes(), verif_source_hash(), key, tree, timeout_ms], sort_keys=True).encode()).hexdigest()
-            cache_path = os.path.join(HERE, ".cache", ck + ".json")
+            cache_path = os.path.join(os.environ.get("PYVC_CACHE_DIR") or os.path.join(HERE, ".cache"), ck + ".json")
             if os.path.exists(cache_path):
                 try:
                     res = json.load(open(cache_path))
